@@ -152,7 +152,7 @@ CHECKS["C11"] = {
     "level": "proof",
     "lean_targets": ["Yae.Props.C11", "Yae.Props.C11b", "Yae.Props.C03"],
     "streams": [
-        VM(4000, 40000, kinds=["verify", "vmcode"], model_is_oracle=["verify"], oracles=["compile-internal-fault"]),
+        VM(4000, 40000, kinds=["verify", "vmcode"], model_is_oracle=["verify"], oracles=["compile-internal-fault", "process-crash"]),
     ],
     "explanation": "An executable verifier (Model/VmVerify.lean: complete decoding into known instructions, in-range constants of the right kind, forward jumps to instruction boundaries, a consistent abstract stack with slot kinds, exactly one value at the final return, thunk bodies against the pool prefix they were compiled with) is PROVED sound for the model machine: verified code never underflows, never meets an unknown opcode / wrong constant kind / thunk-value confusion and stops within the code size (verify_sound, verify_sound_thunk, runVm_sound, verify_decodes, wellFormed_explicit), and every output of the model compiler on a checked tree verifies and runs safely (compile_verified_checked, compiled_runs_safely). It is also run on the bytes the Go compiler actually emitted for every generated program (translation validation, incl. >255 / >65535-member literals and long conditionals), and the model compiler is tied byte for byte to vm.Compile.",
     "assumptions": ["compile_verified is proved for well-annotated trees whose list/map literals carry list/map types (C11.compile_verified_partial), which the checker's output always satisfies (compile_verified_checked); the kernel-checked counterexamples not_verified_* show the hypothesis is needed"],
